@@ -116,6 +116,25 @@ def bad_key_owner(T, w, defs, depth=0):
     return ""
 
 
+def defaulting(v):
+    """The value with every plain dict in it (through lists and tuples) rebuilt as a collections.defaultdict: a mapping that
+    *inserts* a key when an absent one is looked up with [] -- reading the caller's value must not change it.  None if the value
+    holds no dict."""
+    found = [False]
+
+    def go(x):
+        if type(x) is dict:
+            found[0] = True
+            return collections.defaultdict(list, {k: go(y) for k, y in x.items()})
+        if type(x) is list:
+            return [go(y) for y in x]
+        if type(x) is tuple:
+            return tuple(go(y) for y in x)
+        return x
+    out = go(v)
+    return out if found[0] else None
+
+
 DEFS: list = [None]
 
 
@@ -144,6 +163,9 @@ def collect(ctx: Ctx, profile: str):
             w = widen(v)
             if vkey(w) != vkey(v):
                 vals.append(("widened", w))
+            d = defaulting(v)
+            if d is not None:
+                vals.append(("defaulting", d))
         first = []
         for kind, v in vals:
             before = vkey(v)
